@@ -299,6 +299,14 @@ func kindMusig(f *failer) {
 	if !refec.HasEvenY(kc.Q) {
 		R.Add("musig_odd_Q", 1)
 	}
+	// the same option values handed to a second call (options are values a caller
+	// may keep, e.g. in a session configuration): same aggregate
+	if len(kopts) > 0 {
+		agg2, _, _, err2 := musig2.AggregateKeys(clonePubs(pubs), sorted, kopts...)
+		if err2 != nil || !agg2.FinalKey.IsEqual(agg.FinalKey) || !agg2.PreTweakedKey.IsEqual(agg.PreTweakedKey) {
+			f.bad("musig2.AggregateKeys/option-values-reused", "a second AggregateKeys call with the same KeyAggOption values gives err=%v final key %x, the first call %x", err2, serOrNil(agg2), agg.FinalKey.SerializeCompressed())
+		}
+	}
 	if sorted {
 		for i := range keysArg {
 			if !bytes.Equal(keysArg[i].SerializeCompressed(), refKeys[i]) {
@@ -981,4 +989,11 @@ func genMusigEdgeCases(bounds map[string]interface{}) []Case {
 		"cases":          len(cases),
 	}
 	return cases
+}
+
+func serOrNil(a *musig2.AggregateKey) []byte {
+	if a == nil || a.FinalKey == nil {
+		return nil
+	}
+	return a.FinalKey.SerializeCompressed()
 }
